@@ -19,7 +19,7 @@ from simkit.runner import Outcome
 
 PROPERTY = 'C14'
 LEVEL = 'exploration'
-PLAN = {'quick': [('edit', 15000)], 'thorough': [('edit', 400000)]}
+PLAN = {'quick': [('edit', 15000)], 'thorough': [('edit', 1500000)]}
 TIMEOUT = {'quick': 900, 'thorough': 6 * 3600}
 RULE = ('each run: a seeded history of 4-16 operations over a set of live models (add '
         'Constant/Operation/Prior/Simulator/Summary/Discrepancy/Distance with explicit or '
